@@ -882,14 +882,15 @@ func signedRoundTrip(x *mon.Ctx) {
 	for rep := 0; rep < reps; rep++ {
 		for _, n := range lens {
 			t++
-			c := x.Begin("signed round trip: template %d, content length %d, rep %d", t, n, rep)
+			// the message description is drawn from a generator keyed by (seed, case index) before Begin,
+			// so that the case text names every parameter; keys, serial numbers and content come from c.R
+			s := genSigned(mon.NewRand(x.Seed, "c16.signed.roundtrip/spec", t), t, []int{n}, false)
+			c := x.Begin("signed round trip #%d (rep %d): %v", t, rep, s)
 			if c == nil {
 				continue
 			}
 			seedLibraryRand(c, x)
-			s := genSigned(c.R, t, []int{n}, false)
 			c.Class("rt/%s/%s", classOfSigned(s), lenClass(n))
-			c.Detail("spec", s.String())
 			b, err := buildSigned(c, w, s)
 			if err != nil {
 				if !c.Failed() {
@@ -907,25 +908,24 @@ func signedRoundTrip(x *mon.Ctx) {
 // signedAlter: every single-byte substitution of honest messages.
 func signedAlter(x *mon.Ctx) {
 	w := setup(x)
-	n := x.Scale(170, 2400)
+	n := x.Scale(170, 4000)
 	for i := 0; i < n; i++ {
-		c := x.Begin("signed alteration sweep: template %d (every byte x 4 substitutions)", i)
-		if c == nil {
-			continue
-		}
-		seedLibraryRand(c, x)
 		lens := sweepLens
 		if i%9 == 8 {
 			lens = sweepLongLens
 		}
-		s := genSigned(c.R, i, lens, true)
-		for _, g := range s.signers { // P-384 verification is slow: keep those sweeps short
+		s := genSigned(mon.NewRand(x.Seed, "c16.signed.alter/spec", i), i, lens, true)
+		for _, g := range s.signers { // P-384 verification is slow and several signers make long messages: keep those sweeps short
 			if (g.kind == kP384 || len(s.signers) > 1) && s.n > 33 {
 				s.n = 33
 			}
 		}
+		c := x.Begin("signed alteration sweep #%d (every byte x 4 substitutions): %v", i, s)
+		if c == nil {
+			continue
+		}
+		seedLibraryRand(c, x)
 		c.Class("alt/%s/%s", classOfSigned(s), lenClass(s.n))
-		c.Detail("spec", s.String())
 		b, err := buildSigned(c, w, s)
 		if err != nil {
 			if !c.Failed() {
